@@ -29,7 +29,8 @@ def case_term(row):
     def gd(d):
         return gN(ids.setdefault(d, len(ids) + 1))
 
-    flags = gpair(gbool(scn["recovery"]), gbool(scn["dir"] == "s2c"), gbool(CODE_STRIPS))
+    flags = gpair(gbool(scn["recovery"]), gbool(scn["dir"] == "s2c"), gbool(CODE_STRIPS),
+                  gbool(row.get("ws_att_in_flight", False)))
     nrows = [gpair(gN(i), gbool(row["trailing"][i]), gbool(True)) for i in scn["names"]]
     if row.get("twice", -1) in scn["names"]:
         t = row["twice"]
@@ -88,7 +89,10 @@ def run(ctx):
                 "(numbers, strings, structs, maps, nested sio.Binary leaves, 0..4+ attachments), frame sizes "
                 "{tiny, ~1 KiB, 32 KiB+-1, 64 KiB+-1, 100-300 KiB (thorough: up to 900 KB)}; one evaluation = one emitted "
                 "event whose deliveries are counted and digest-compared; non-trivial = event with a binary attachment, a "
-                "frame >= 1 KiB, or emitted concurrently with >= 2 emitters (distinct (scenario, conn, emitter, seq))")
+                "frame >= 1 KiB, or emitted concurrently with >= 2 emitters (distinct (scenario, conn, emitter, seq)); plus the "
+                "held-transfer family: one long-polling GET response / POST kept back by an http.RoundTripper across the "
+                "upgrade while the other transport streams (two transports feeding one parser), with a JSON library that is "
+                "slow at reading event names so that windows between the Adds of one delivery are wide")
     ctx.trusted = ["Coq 8.16.1 kernel + vm_compute",
                    "hand-written composition model Sio/EndToEnd.v; component hypotheses are the theorems of C09/C10/C11/C13/C02/C18 "
                    "(discharged for the concrete codec of Sio/EndToEndInst.v), link reliability assumed",
@@ -157,8 +161,13 @@ def run(ctx):
         key = None
         if extra == 0 and lost_names and scn["recovery"] and scn["dir"] == "s2c" and all(r["trailing"][n] for n in lost_names):
             key = "recovery-on:trailing-string-arg"
-        what = ("scenario %d (%s%s, recovery %s, %s, %d client(s), %d emitter(s), size %s): %s" % (
-            scn["id"], scn["transport"], " mid-upgrade" if scn["mid"] else "", "on" if scn["recovery"] else "off",
+        if r.get("ws_att_in_flight"):
+            # two transports feed the client's parser and the websocket one carries attachments:
+            # outside feeders_safe (C01_feeders_websocket_attachments_refuted)
+            key = "upgrade-window:late-poll-vs-websocket-attachments"
+        what = ("scenario %d (%s%s%s, recovery %s, %s, %d client(s), %d emitter(s), size %s): %s" % (
+            scn["id"], scn["transport"], " mid-upgrade" if scn["mid"] else "",
+            (" held " + scn["held"]) if scn.get("held") else "", "on" if scn["recovery"] else "off",
             scn["dir"], scn["clients"], scn["emitters"], scn["size"], describe(r)))
         ctx.fail_or_known(key, what, {"kind": "failing-input", "engine": "e2e",
                                       "replay_cmd": "vh e2e -seed %s -tier %s -only %d" % (ctx.seed, ctx.tier, scn["id"]),
